@@ -110,10 +110,37 @@ DecResult(j, s) ==
       faults |-> r.faults, full |-> full, val |-> r.val, rest |-> Len(r.rest),
       refaults |-> re.faults, reenc |-> re.bytes]
 
+(* the value schema of every packet/struct type: which fields a value carries, *)
+(* in canonical order, and of what kind - used by the harness generators to    *)
+(* move values in and out of statically typed targets (no semantics there)     *)
+KindOfType(d, typeId) ==
+  IF typeId = "" THEN "scalar"
+  ELSE IF ~HasDecl(d, typeId) THEN "unknown"
+  ELSE DeclOf(d, typeId).kind
+
+FieldSchema(d, f) ==
+  [name |-> f.id,
+   kind |-> IF f.kind = "array" THEN "array" ELSE IF f.kind = "scalar" THEN "scalar" ELSE KindOfType(d, f.type),
+   width |-> IF f.kind = "scalar" THEN f.width
+             ELSE IF f.kind = "typedef" /\ HasDecl(d, f.type) THEN DeclOf(d, f.type).width ELSE 0,
+   type |-> f.type, count |-> f.count, opt |-> IsOptional(f),
+   ekind |-> IF f.kind = "array" THEN KindOfType(d, f.type) ELSE "",
+   ewidth |-> IF f.kind # "array" THEN 0 ELSE IF f.type = "" THEN f.width
+              ELSE IF HasDecl(d, f.type) THEN DeclOf(d, f.type).width ELSE 0]
+
+TypeSchema(d, id) ==
+  LET vf == ValueFields(d, id)
+  IN [id |-> id, parent |-> DeclOf(d, id).parent, kind |-> DeclOf(d, id).kind,
+      payload |-> LeafHasPayload(d, id),
+      fields |-> [k \in 1..Len(vf) |-> FieldSchema(d, vf[k].decl.fields[vf[k].i])]]
+
 InfoResult(j) ==
-  LET d == D(j) IN
+  LET d == D(j)
+      ts == SelectSeq(d.decls, LAMBDA x : x.kind \in {"packet", "struct"})
+  IN
   [job |-> j, k |-> "info", rust |-> RustSupported(d), py |-> PySupported(d),
-   cxx |-> CxxSupported(d), java |-> JavaSupported(d)]
+   cxx |-> CxxSupported(d), java |-> JavaSupported(d),
+   types |-> [i \in 1..Len(ts) |-> TypeSchema(d, ts[i].id)]]
 
 EnumResult(j, s) ==
   LET e == DeclOf(D(j), T(j))
